@@ -116,3 +116,29 @@ pub fn key(toks: &[&str]) -> Option<String> {
     let back = match u128::from_str_radix(&secret, 16) { Ok(b) => hex(&b.to_be_bytes()), Err(_) => "err".to_string() };
     Some(format!("fmt={} back={}", hexs(&secret), back))
 }
+
+/// `exe <addelf|extelf|addpe|extpe> x<bytes> x<name> [x<payload>]`: the real exe_utils functions under catch_unwind
+pub fn exe(toks: &[&str]) -> Option<String> {
+    use crate::exe_utils::*;
+    let mut t = Toks::new(&toks[1..]);
+    let bytes = t.bytes()?;
+    let name = t.string()?;
+    let payload = if toks[0].starts_with("add") { Some(t.bytes()?) } else { None };
+    if !t.done() { return None; }
+    let msg = std::sync::Arc::new(std::sync::Mutex::new(String::new()));
+    let m2 = msg.clone();
+    let prev = std::panic::take_hook();
+    std::panic::set_hook(Box::new(move |info| { *m2.lock().unwrap() = format!("{}", info).chars().take(160).collect(); }));
+    let op = toks[0].to_string();
+    let r = std::panic::catch_unwind(move || -> String {
+        match op.as_str() {
+            "addelf" => match add_section_to_elf(bytes, &name, payload.unwrap()) { Ok(b) => format!("ok:x{}", hex(&b)), Err(_) => "err".to_string() },
+            "addpe" => match add_section_to_pe(bytes, &name, payload.unwrap()) { Ok(b) => format!("ok:x{}", hex(&b)), Err(_) => "err".to_string() },
+            "extelf" => match extract_section_from_elf(bytes, &name) { Ok(b) => format!("ok:x{}", hex(&b)), Err(ExtractSectionError::SectionNotFound) => "ok:none".to_string(), Err(_) => "err".to_string() },
+            "extpe" => match extract_section_from_pe(bytes, &name) { Ok(b) => format!("ok:x{}", hex(&b)), Err(ExtractSectionError::SectionNotFound) => "ok:none".to_string(), Err(_) => "err".to_string() },
+            _ => "bad-op".to_string(),
+        }
+    });
+    std::panic::set_hook(prev);
+    Some(match r { Ok(s) => s, Err(_) => format!("panic msg={}", hexs(&msg.lock().unwrap())) })
+}
